@@ -281,6 +281,15 @@ def model_outcomes(run, name, cases, fn="build_checked"):
     return [parse_coq_string(x) for x in out]
 
 
+def emission_premises(run, name, cases):
+    """EmitFacts.emission_premises_req on each (coq_prog, coq_request): are the premises of the validator-free emission theorem
+    (C04_build_main_emits_at_most_once) met by this program?  Returns a list of booleans."""
+    header = COQ_HEADER.replace("Build Show Validate.", "Build Show Validate EmitFacts.")
+    exprs = [f"emission_premises_req {p} {r}" for p, r in cases]
+    out = run.coq_eval(name, header, exprs, shard=max(1, min(60, (len(exprs) + 15) // 16)))
+    return [x.strip() == "true" for x in out]
+
+
 # ------------------------------------------------------------------------------------------------ generator
 
 F32 = np.float32
